@@ -704,6 +704,10 @@ def nt_family():
     for b in (12, 10, 1024, 3):
         H("k_gcd_ext_word_3_b%d" % b, "h_nt::k_gcd_ext_word::<3,4>(%d)" % b, Q("C12") if b in (12, 10) else TH("C12"), unwind=12,
           bound="kernel gcd_ext_word: every 3-word value against the literal word %d: Bezout identity with signs" % b)
+    for b in (6, 12, 10, 1024):
+        for sb in (8, 16, 64):
+            H("k_gcd_ext_word_lowsym_b%d_s%d" % (b, sb), "h_nt::k_gcd_ext_word_lowsym::<3,4>([0,5,9],%d,%d)" % (b, sb), Q("C12") if (b, sb) == (6, 8) else TH("C12"), unwind=9 if b < 100 else 18, pin=(b, sb) == (6, 8),
+              bound="kernel gcd_ext_word: the 3-word values [s, 5, 9], s < 2^%d, against the literal word %d: Bezout identity with signs" % (sb, b))
     for f in (2, 8, 3, 10):
         H("c12_remove_%d" % f, "h_nt::remove_small(12,%d)" % f, Q("C12") if f in (2, 8) else TH("C12"), "i64", unwind=24, bound="UBig::remove(%d) for every non-zero value below 2^12" % f)
 
